@@ -473,10 +473,22 @@ Qed.
 
 Definition closing (b : bool) : list (PathEl T) := if b then [ClosePath] else [].
 
-(** the output for one well-formed sub-path *)
+(** the output for one well-formed sub-path. ClosePath rule: a closed sub-path gets its ClosePath
+    exactly when it has at least one non-degenerate segment (then the final run is non-empty);
+    a sub-path whose elements all have zero length produces no output at all. *)
 Definition sub_out (s : Subpath T) : list (PathEl T) :=
   let '(R, nm, cur) := spec_segs [] true [] (sub_segs s) in
-  R ++ emit_run nm cur ++ closing (sp_closed s).
+  R ++ emit_run nm cur ++ match cur with [] => [] | _ => closing (sp_closed s) end.
+
+Lemma spec_segs_cur_nonempty : forall segs R nm cur R' nm' cur',
+  cur ++ segs <> [] -> spec_segs R nm cur segs = (R', nm', cur') -> cur' <> [].
+Proof.
+  induction segs as [|s r IH]; intros R nm cur R' nm' cur' Hne E; cbn [spec_segs] in E.
+  - inversion E; subst. rewrite app_nil_r in Hne. exact Hne.
+  - destruct (last_seg_of cur) as [l|].
+    + destruct (corner l s); eapply IH; try exact E; try discriminate. destruct cur; discriminate.
+    + eapply IH; try exact E. destruct cur; discriminate.
+Qed.
 
 Lemma spec_segs_prefix : forall segs R nm cur,
   spec_segs R nm cur segs =
@@ -515,10 +527,13 @@ Qed.
 
 Lemma step_closepath R nm cur last :
   simplify_step fitter thresh (mk_lp R nm cur last) ClosePath =
-  Some (mk_lp ((R ++ emit_run nm cur) ++ [ClosePath]) true [] last).
+  Some (mk_lp (match cur with
+               | [] => if nm then R else R ++ [ClosePath]
+               | _ => (R ++ emit_run nm cur) ++ [ClosePath]
+               end) true [] last).
 Proof.
-  cbn [simplify_step]. unfold mk_lp at 1 2 3. cbn [sl_state sl_last_pt]. rewrite flush_mk.
-  destruct cur; cbn [ss_queue ss_result emit_run]; [rewrite app_nil_r|]; reflexivity.
+  cbn [simplify_step]. unfold mk_lp. cbn [sl_state sl_last_pt]. rewrite !flush_mk.
+  destruct cur; cbn [ss_queue ss_result ss_needs_moveto]; [destruct nm|]; reflexivity.
 Qed.
 
 Definition sub_ok (s : Subpath T) : Prop := forallb (@is_draw T) (sp_body s) = true.
@@ -533,11 +548,18 @@ Proof.
   destruct (spec_segs (R ++ emit_run nm cur) true [] (sub_segs s)) as [[R1 nm1] cur1] eqn:E1.
   rewrite (body_sim _ Hok _ _ _ _ E1).
   rewrite spec_segs_prefix in E1. unfold sub_out.
-  destruct (spec_segs [] true [] (sub_segs s)) as [[R' nm'] cur']. inversion E1; subst; clear E1.
+  destruct (spec_segs [] true [] (sub_segs s)) as [[R' nm'] cur'] eqn:E0. inversion E1; subst; clear E1.
   destruct (sp_closed s); cbn [closing simplify_loop].
   - rewrite step_closepath. do 4 eexists. split; [reflexivity|].
-    cbn [emit_run]. rewrite app_nil_r. rewrite <- !app_assoc. reflexivity.
-  - do 4 eexists. split; [reflexivity|]. rewrite app_nil_r, <- !app_assoc. reflexivity.
+    destruct cur1 as [|c cs].
+    + (* no segment at all: nothing was emitted and nothing is closed *)
+      assert (Hs : sub_segs s = []).
+      { destruct (sub_segs s) as [|a r] eqn:Es; [reflexivity|]. exfalso.
+        eapply (spec_segs_cur_nonempty (a :: r) [] true []); [discriminate|exact E0|reflexivity]. }
+      rewrite Hs in E0. cbn in E0. inversion E0; subst.
+      cbn [emit_run]. rewrite !app_nil_r. reflexivity.
+    + cbn [emit_run]. rewrite app_nil_r. rewrite <- !app_assoc. reflexivity.
+  - do 4 eexists. split; [reflexivity|]. destruct cur1; rewrite ?app_nil_r, <- ?app_assoc; reflexivity.
 Qed.
 
 Lemma subs_sim : forall sps, Forall sub_ok sps -> forall R nm cur last,
@@ -710,7 +732,11 @@ Proof.
   destruct (sub_segs s) as [|a r] eqn:Es; [congruence|].
   destruct (spec_out_shape Hf (a :: r) true [] a) with (R := R) (nm' := nm) (cur' := cur) as (els & Eq & N & D & L & V);
     [discriminate|exact E|].
-  exists els. cbn [app hd] in Eq, L. rewrite app_assoc, Eq. cbn [app].
+  assert (Hcur : cur <> []) by (eapply (spec_segs_cur_nonempty (a :: r) [] true []); [discriminate|exact E]).
+  exists els. cbn [app hd] in Eq, L.
+  replace (match cur with [] => [] | _ :: _ => closing (sp_closed s) end) with (closing (sp_closed s))
+    by (destruct cur; [congruence|reflexivity]).
+  rewrite app_assoc, Eq. cbn [app].
   unfold sub_segs in Es. rewrite (body_segs_start _ _ Es).
   split; [reflexivity|]. split; [exact N|]. split; [exact D|]. split.
   - rewrite L. unfold segs_end, last_seg_of. destruct (rev (a :: r)); reflexivity.
